@@ -402,3 +402,14 @@ Lemma inv25_init a b :
   inv25 (mkBi a b [] [] [] [] [] []).
 Proof. intros. split; apply inv5_init; assumption. Qed.
 End Bi5.
+
+(* in every state of every two-way schedule each side's Receive Maximum account is the number of its own exchanges in
+   flight (its PUBLISH/PUBREL on one link, their acknowledgements on the other) and within the other side's limit *)
+Theorem two_way5_counters gA gB l s : inv25 gA gB s -> Forall good_act25 l ->
+  exists s', run_sched25 gA gB s l = Some s' /\
+    (forall m, c_send_max (ea s') = Some m -> c_send_count (ea s') = flight (vAB s') /\ flight (vAB s') <= m) /\
+    (forall m, c_send_max (eb s') = Some m -> c_send_count (eb s') = flight (vBA s') /\ flight (vBA s') <= m).
+Proof.
+  intros Hi Hf. destruct (sched25_ok gA gB l s Hi Hf) as (s' & R & [I1 I2]). exists s'. split; [exact R|].
+  destruct I1 as (_ & _ & _ & _ & _ & Hc & _). destruct I2 as (_ & _ & _ & _ & _ & Hc' & _). split; [exact Hc|exact Hc'].
+Qed.
